@@ -1701,6 +1701,15 @@ class GroupBy:
 
         return_polars = self._values_is_polars(type_list)
 
+        if times is not None:
+            # (a length mismatch is reported by ema_grouped)
+            if isinstance(times, pd.Series) and len(times) == len(self):
+                for index in (self._key_index, common_index):
+                    if index is not None and not index.equals(times.index):
+                        raise ValueError(
+                            "Pandas index of times does not match that of the other inputs"
+                        )
+
         if index_by_groups:
             indexer = self._group_sort_indexer
             result_index = self._build_group_sorted_index(common_index)
@@ -2411,6 +2420,8 @@ class GroupBy:
         max_diff: float | int
             The threshold distance for forming a new sub-group
         """
+        # same length / index checks as for every other operation
+        self._preprocess_arguments(values, mask=None)
         self._unify_group_key_chunks()
         return numba_funcs.group_nearby_members(
             group_key=self.group_ikey,
